@@ -435,16 +435,44 @@ func c11Pairing(p *Program, r *Report) {
 					continue
 				}
 				f := call.Call.StaticCallee()
-				if f == nil || f.Pkg == nil || shortPkg(f.Pkg.Pkg) != "primitive" || !strings.HasPrefix(f.Name(), "Write") || !strings.HasSuffix(f.Name(), "Bytes") {
+				if f == nil || f.Pkg == nil {
 					continue
 				}
-				e := wctx.val(call.Call.Args[0])
-				m := encRe.FindStringSubmatch(e)
-				if m == nil {
-					bad = fmt.Sprintf("%s writes %s, which is not the encoding of an extracted element", pr[0], e)
+				record := func(name, e string) {
+					m := encRe.FindStringSubmatch(e)
+					if m == nil {
+						bad = fmt.Sprintf("%s writes %s, which is not the encoding of an extracted element", pr[0], e)
+						return
+					}
+					wst[name] = append(wst[name], stage{codec: m[1], item: m[2]})
+				}
+				if shortPkg(f.Pkg.Pkg) == "datacodec" && f.Blocks != nil && f.Signature.Recv() == nil {
+					// a helper that does the writing: its Write*Bytes calls with parameters
+					// replaced by the caller's arguments
+					env := map[*ssa.Parameter]string{}
+					for i, pp := range f.Params {
+						if i < len(call.Call.Args) {
+							env[pp] = wctx.val(call.Call.Args[i])
+						}
+					}
+					hctx := wctx.child(env)
+					for _, hb := range f.Blocks {
+						for _, hi := range hb.Instrs {
+							hc, ok := hi.(*ssa.Call)
+							if !ok {
+								continue
+							}
+							if hf := hc.Call.StaticCallee(); hf != nil && hf.Pkg != nil && shortPkg(hf.Pkg.Pkg) == "primitive" && strings.HasPrefix(hf.Name(), "Write") && strings.HasSuffix(hf.Name(), "Bytes") {
+								record(hf.Name(), hctx.val(hc.Call.Args[0]))
+							}
+						}
+					}
 					continue
 				}
-				wst[f.Name()] = append(wst[f.Name()], stage{codec: m[1], item: m[2]})
+				if shortPkg(f.Pkg.Pkg) != "primitive" || !strings.HasPrefix(f.Name(), "Write") || !strings.HasSuffix(f.Name(), "Bytes") {
+					continue
+				}
+				record(f.Name(), wctx.val(call.Call.Args[0]))
 			}
 		}
 		var ref []stage
